@@ -1,7 +1,11 @@
 import CogentModel.Json
 import Driver.PruneCmds
+import Driver.C11Cmds
 open CogentModel
 
-def handle (cmd : String) (j : J) : Except String J := PruneCmds.handle cmd j
+def handle (cmd : String) (j : J) : Except String J :=
+  match C11Cmds.handle? cmd j with
+  | some r => r
+  | none => PruneCmds.handle cmd j
 
 def main : IO Unit := driverLoop handle
